@@ -1,2 +1,30 @@
-(** Theorems for C19: filled in below as the proofs land. *)
-From JL Require Import Base.Json.
+(** * C19: the Python module adds only JSON (de)serialisation around the library.
+    Statements only; proofs are in Proofs/BoundaryFacts.v.  (Model part: the logic of
+    __init__.py::apply / apply_serialized and of src/lib.rs::python_iface over what the text
+    parser made of the texts.  CPython, its json module and the cpython crate are exercised by
+    the correspondence run: the extension built from the working tree is imported and called.) *)
+From Coq Require Import List NArith.
+From JL Require Import Base.Json Base.Str Base.JsonText Base.Monad Model.Eval Model.Boundary Proofs.BoundaryFacts.
+Import ListNotations.
+
+(** a result text is returned exactly when both texts parse and the library succeeds; it is the
+    serialised library result (which the wrapper then hands to the deserializer) *)
+Theorem C19_return :
+  forall value data text,
+    py_native value data = PyReturn text <->
+    exists r d logs v, value = Some r /\ data = Some d /\ apply r d = (logs, Ok v) /\ text = json_text v.
+Proof. exact py_return. Qed.
+Print Assumptions C19_return.
+
+(** every library error and every malformed text is a ValueError *)
+Theorem C19_value_error :
+  forall value data,
+    py_native value data = PyValueError <->
+    value = None \/ data = None \/ exists r d e, value = Some r /\ data = Some d /\ snd (apply r d) = Err e.
+Proof. exact py_value_error. Qed.
+Print Assumptions C19_value_error.
+
+(** an omitted data argument means null *)
+Theorem C19_omitted_data : forall value, py_apply value None = py_native value (Some Null).
+Proof. exact py_omitted_data_is_null. Qed.
+Print Assumptions C19_omitted_data.
